@@ -486,6 +486,16 @@ class Idl:
         self._flat(d, [], by_path, program_id_hex, out, errs, 0)
         return out, errs
 
+    def flatten_named(self, d, choices, program_id_hex):
+        """`flatten_paths` plus, for every entry of the list, the IDL field path (name parts, the index inside a
+        variable-length group left out) of the leaf account it was built for: (list, list of name-part lists, problems)"""
+        by_path = {}
+        for c in choices:
+            by_path.setdefault(c[1], []).append(c)
+        out, errs, names = [], [], []
+        self._flat(d, [], by_path, program_id_hex, out, errs, 0, names, [])
+        return out, names, errs
+
     def _lookup(self, by_path, path):
         """choices recorded at this path; a one-field struct collapsed by the IDL leaves its field name in the path"""
         p = ".".join(path)
@@ -498,7 +508,15 @@ class Idl:
             return by_path[cands[0]], cands[0]
         return None, p
 
-    def _flat(self, d, path, by_path, pid, out, errs, depth):
+    def _flat(self, d, path, by_path, pid, out, errs, depth, names=None, npath=None):
+        """`path`: where the client's choices are looked up (inside a variable-length group it carries the element index);
+        `npath` (only when `names` is collected): the IDL field names down to this set.  `names` is kept as long as `out`:
+        the nested calls have labelled their own entries when they return, what is left was added by this node itself"""
+        self._flat1(d, path, by_path, pid, out, errs, depth, names, npath)
+        if names is not None:
+            names.extend([list(npath)] * (len(out) - len(names)))
+
+    def _flat1(self, d, path, by_path, pid, out, errs, depth, names, npath):
         if depth > 64:
             errs.append("cyclic account sets")
             return
@@ -508,7 +526,7 @@ class Idl:
             if s is None:
                 errs.append("undefined set " + v["source"])
                 return
-            return self._flat(s["account_set_def"], path, by_path, pid, out, errs, depth + 1)
+            return self._flat(s["account_set_def"], path, by_path, pid, out, errs, depth + 1, names, npath)
         if k == "Single":
             cs, p = self._lookup(by_path, path)
             if cs is None:
@@ -534,8 +552,9 @@ class Idl:
             return
         if k == "Struct":
             for i, f in enumerate(v):
-                self._flat(f["account_set_def"], path + [f["path"] if f["path"] is not None else str(i)], by_path, pid, out,
-                           errs, depth + 1)
+                seg = f["path"] if f["path"] is not None else str(i)
+                self._flat(f["account_set_def"], path + [seg], by_path, pid, out, errs, depth + 1, names,
+                           None if names is None else npath + [seg])
             return
         if k == "Many":
             cs, p = self._lookup(by_path, path)
@@ -547,7 +566,8 @@ class Idl:
             if n < v["min"] or (v["max"] is not None and n > v["max"]):
                 errs.append("%d elements at %r outside [%s, %s]" % (n, p, v["min"], v["max"]))
             for i in range(n):
-                self._flat(v["account_set"], p.split(".") + [str(i)] if p else [str(i)], by_path, pid, out, errs, depth + 1)
+                self._flat(v["account_set"], p.split(".") + [str(i)] if p else [str(i)], by_path, pid, out, errs, depth + 1,
+                           names, npath)
             return
         if k == "Or":
             cs, p = self._lookup(by_path, path)
@@ -565,7 +585,7 @@ class Idl:
                 return
             if cs[0][0] == "S":
                 sub = {q: (c[1:] if q == p else c) for q, c in by_path.items()}
-                return self._flat(v[0], path, sub, pid, out, errs, depth + 1)
+                return self._flat(v[0], path, sub, pid, out, errs, depth + 1, names, npath)
             errs.append("Or: choice %s at %r" % (cs[0][0], p))
             return
         errs.append("unknown account set constructor " + k)
@@ -592,6 +612,28 @@ class Idl:
         if k == "Many":
             return [(p, s, True) for p, s, _ in self.singles_in_order(v["account_set"], path, depth + 1)]
         raise Unsupported("Or")
+
+    def aset_shape(self, d, depth=0):
+        """the nesting of an account set as text: F = one fixed account, M = a variable-length group without an upper
+        bound, M<n> = one of at most n elements, ( .. ) = a struct's fields in declaration order, O( .. | .. ) = Or"""
+        if depth > 64:
+            raise Unsupported("cyclic")
+        k, v = kind(d)
+        if k == "Defined":
+            s = self.idl["account_sets"].get(v["source"])
+            if s is None:
+                raise Unsupported("undefined set")
+            return self.aset_shape(s["account_set_def"], depth + 1)
+        if k == "Single":
+            return "F"
+        if k == "Many":
+            inner = self.aset_shape(v["account_set"], depth + 1)
+            return "M" + ("" if v["max"] is None else str(v["max"])) + ("" if inner == "F" else "[" + inner + "]")
+        if k == "Struct":
+            return "(" + " ".join(self.aset_shape(f["account_set_def"], depth + 1) for f in v) + ")"
+        if k == "Or":
+            return "O(" + " | ".join(self.aset_shape(a, depth + 1) for a in v) + ")"
+        raise Unsupported(k)
 
 
 def tokens_of(choices):
